@@ -107,7 +107,8 @@ def build_test_setting(cfg):
         n_rep=cfg["n_rep"],
         num_data=list(cfg["num_data"]),
         schedules="all",
-        case_names=[c[0] for c in cases],
+        # "tied_names": every case is named after its estimator only, so two cases of one estimator share a name
+        case_names=[ec["est"] for ec in cfg["est_cases"]] if cfg.get("tied_names") else [c[0] for c in cases],
         estimators=[c[1] for c in cases],
         eps_proj_physical_list=[cfg.get("eps_proj_physical", 1e-5)] * len(cases),
         eps_truncate_imaginary_part_list=[1e-5] * len(cases),
